@@ -260,8 +260,8 @@ def _ops(alpha: str, thorough: bool):
                                      "rel": st.booleans()})
     hardlink = st.fixed_dictionaries({"op": st.just("hardlink_to"), "t": _target(nm, 0.85), "to": _target(nm, 0.1, "file")})
     chmod = st.fixed_dictionaries({"op": st.just("chmod"), "t": _target(nm, 0.1), "mode": st.integers(0, len(FILE_MODES) - 1)})
-    one = st.one_of(query, query, query, mkdir, mkdir, write, write, read, read, globop, globop, walk, walk, rmtree,
-                    symlink, hardlink, chmod)
+    one = st.one_of(query, query, query, query, query, query, mkdir, mkdir, write, write, read, read, globop, globop,
+                    walk, walk, rmtree, symlink, hardlink, chmod)
     return st.lists(one, min_size=1, max_size=25 if thorough else 15)
 
 
@@ -1060,9 +1060,12 @@ def _first_trigger(c: dict, table=triggers) -> str | None:
     return None
 
 
-def diagnose(c: dict, ref, got, sdiff: dict, pre: dict) -> str:
+def diagnose(c: dict, ref, got, sdiff: dict, pre: dict, remote: bool = True) -> str:
     """``ref`` / ``got`` = ("ok", value) | ("err", type name) | ("hang", None) | ("crash", type name)."""
     op = c["op"]
+    if not remote:  # LocalStreamFlowPath involves no shell: nothing is explained by shell syntax
+        what = "outcome" if ref[0] != got[0] else "value" if ref[0] == "ok" and ref[1] != got[1] else "state"
+        return f"disagrees-with-reference-{what}"
     trig = _first_trigger(c)
     if op == "glob" and c.get("pattern_literal"):
         # a literal pattern (a file name used as a CWL glob) is pasted unquoted behind the quoted directory
@@ -1090,7 +1093,7 @@ def diagnose(c: dict, ref, got, sdiff: dict, pre: dict) -> str:
         mode_only = all(a and b and a[0] == b[0] == "d" for a, b in sdiff.values())
         if ref[0] == "err" and got[0] == "ok" and not c["parents"] and c["exist_ok"] and pre["parent_missing"] and not trig:
             return "exist-ok-creates-parents"
-        if ref[0] == "err" and got[0] == "ok" and c["parents"] and not c["exist_ok"] and pre["kind"] == "d" and mode_only and not trig:
+        if ref[0] == "err" and got[0] == "ok" and c["parents"] and not c["exist_ok"] and pre["isdir"] and mode_only and not trig:
             return "parents-implies-exist-ok"
     if op == "read_text" and both_ok and not same_value and not sdiff:
         if got[1] == ref[1].strip():
@@ -1264,7 +1267,7 @@ def _pre_state(root: str, c: dict) -> dict:
     kind = None
     if os.path.lexists(p):
         kind = "l" if os.path.islink(p) else "d" if os.path.isdir(p) else "f"
-    pre = {"kind": kind, "dangling": kind == "l" and not os.path.exists(p),
+    pre = {"kind": kind, "isdir": os.path.isdir(p), "dangling": kind == "l" and not os.path.exists(p),
            "parent_missing": not os.path.isdir(os.path.dirname(p)), "links_below": False}
     op = c["op"]
     if op == "size":
@@ -1367,7 +1370,7 @@ async def _machine(case: dict, rec, driver: str) -> None:
             strays = env.box.strays() if remote else []
             ok = ref[0] == got[0] and (ref[0] != "ok" or ref[1] == got[1]) and not sdiff and not strays
             if not ok:
-                kind = f"C24:{'local:' if not remote else ''}{op}:{diagnose(c, ref, got, sdiff, pre)}"
+                kind = f"C24:{'local:' if not remote else ''}{op}:{diagnose(c, ref, got, sdiff, pre, remote)}"
                 detail = (f"step {i}: {op} {c!r}\n reference: {_short(ref)}\n {driver}:    {_short(got)}\n"
                           f" tree differences (reference, {driver}): {_short(sdiff)}\n stray files in the shell's cwd/home: {strays}")
                 mismatches.append((kind, detail))
@@ -1410,11 +1413,11 @@ def _run(case: dict, rec, driver: str) -> None:
         raise HarnessError("machine exceeded the 900 s safety net (inconclusive)") from e
 
 
-@prop.given("remote", _tier_strategy, quick=240, thorough=6000, shrink=False, setup=_setup, teardown=_teardown)
+@prop.given("remote", _tier_strategy, quick=160, thorough=6000, shrink=False, setup=_setup, teardown=_teardown)
 def remote(case, rec):
     _run(case, rec, "remote")
 
 
-@prop.given("local", _tier_strategy, quick=160, thorough=6000, shrink=False, setup=_setup, teardown=_teardown)
+@prop.given("local", _tier_strategy, quick=120, thorough=6000, shrink=False, setup=_setup, teardown=_teardown)
 def local(case, rec):
     _run(case, rec, "local")
